@@ -131,6 +131,11 @@ func splitIntoChunks(txt string, numberOfBatches int) []string {
 		for nextPointer < len(txt) && !utf8.RuneStart(txt[nextPointer]) {
 			nextPointer++
 		}
+		if nextPointer > 0 && nextPointer < len(txt) && txt[nextPointer-1] == '\r' && txt[nextPointer] == '\n' {
+			// Never divide a CRLF line ending either, as a lone `\r` at
+			// the end of a chunk wouldn’t be recognised as blank line.
+			nextPointer++
+		}
 		if nextPointer > len(txt) {
 			batches[i] = txt[pointer:]
 			break
